@@ -21,4 +21,24 @@ pub mod shim {
             iv[idx] = x ^ y;
         }
     }
+
+    // RW stand-ins for `write!(r, "{}.{}", x, y)` and `write!(r, ".{}", v)` on a String (the fmt machinery is outside
+    // Verus). ASSUMED effect: the decimal text of the numbers (std Display for u32, uninterpreted `dec`) and the literal
+    // dots are appended; fmt::Write for String never fails (std: its write_str always returns Ok).
+    pub uninterp spec fn dec(n: nat) -> Seq<char>;
+    pub struct FmtError;
+    #[verifier::external_body]
+    pub fn write_two(r: &mut String, x: u32, y: u32) -> (res: Result<(), FmtError>)
+        ensures res is Ok, final(r)@ == old(r)@ + dec(x as nat) + seq!['.'] + dec(y as nat)
+    {
+        use std::fmt::Write;
+        write!(r, "{}.{}", x, y).map_err(|_| FmtError)
+    }
+    #[verifier::external_body]
+    pub fn write_dot(r: &mut String, v: u32) -> (res: Result<(), FmtError>)
+        ensures res is Ok, final(r)@ == old(r)@ + seq!['.'] + dec(v as nat)
+    {
+        use std::fmt::Write;
+        write!(r, ".{}", v).map_err(|_| FmtError)
+    }
 }
